@@ -112,7 +112,7 @@ where
             self.reservoir.push(obj)
         } else if self.i < t {
             // normal reservoir sampling
-            let j: usize = self.rng.gen_range(0..self.i);
+            let j: usize = self.rng.gen_range(0..=self.i);
             if j < self.k {
                 self.reservoir[j] = obj;
             }
